@@ -27,12 +27,15 @@ const TAGS_QUERY: &str = r#"
 )
 (class_def name: (ident) @name body: (block (fn_def) .)) @definition.class
 ((call fn: (ident) @name) @reference.call (#is-not? local))
+((lambda body: (ident) @name) @reference.call (#is-not? local))
 "#;
 const LOCALS_QUERY: &str = r#"
 (fn_def) @local.scope
 (block) @local.scope
 (params (ident) @local.definition)
 (let name: (ident) @local.definition)
+(lambda) @local.scope
+(lambda param: (ident) @local.definition)
 "#;
 
 fn case_json(src: &[u8]) -> Value { json!({"source": crate::util::bytes_json(src)}) }
@@ -48,12 +51,12 @@ fn expected(language: &tree_sitter::Language, src: &[u8], xt: &XTree) -> Vec<Exp
     let child_by_field = |i: usize, f: &str| xt.nodes[i].children.iter().copied().find(|&c| fname(c) == Some(f));
     let subtree_has_error = |i: usize| { let mut st = vec![i]; while let Some(j) = st.pop() { if xt.nodes[j].is_error || xt.nodes[j].missing { return true; } st.extend_from_slice(&xt.nodes[j].children); } false };
     // local definitions: (innermost scope node, text, start)
-    let scope_of = |i: usize| -> usize { let mut p = xt.nodes[i].parent; while let Some(q) = p { if kind(q) == "block" || kind(q) == "fn_def" { return q; } p = xt.nodes[q].parent; } 0 };
+    let scope_of = |i: usize| -> usize { let mut p = xt.nodes[i].parent; while let Some(q) = p { if kind(q) == "block" || kind(q) == "fn_def" || kind(q) == "lambda" { return q; } p = xt.nodes[q].parent; } 0 };
     let mut defs: Vec<(usize, &[u8], usize)> = vec![];
     for i in 0..xt.nodes.len() {
         if kind(i) != "ident" { continue; }
         let Some(p) = xt.nodes[i].parent else { continue };
-        if kind(p) == "params" || (kind(p) == "let" && fname(i) == Some("name")) { defs.push((scope_of(i), &src[xt.nodes[i].start..xt.nodes[i].end], xt.nodes[i].start)); }
+        if kind(p) == "params" || (kind(p) == "let" && fname(i) == Some("name")) || (kind(p) == "lambda" && fname(i) == Some("param")) { defs.push((scope_of(i), &src[xt.nodes[i].start..xt.nodes[i].end], xt.nodes[i].start)); }
     }
     let mut out = vec![];
     for i in 0..xt.nodes.len() {
@@ -95,16 +98,16 @@ fn expected(language: &tree_sitter::Language, src: &[u8], xt: &XTree) -> Vec<Exp
                 }
                 out.push(Exp { name: (nn.start, nn.end), range: (n.start.min(nn.start), n.end.max(nn.end)), is_def: true, kind: if kind(i) == "fn_def" { "function" } else { "class" }, docs });
             }
-            "call" => {
-                let Some(nm) = child_by_field(i, "fn") else { continue };
+            "call" | "lambda" => {
+                let Some(nm) = child_by_field(i, if kind(i) == "call" { "fn" } else { "body" }) else { continue };
                 if kind(nm) != "ident" || xt.nodes[nm].missing || subtree_has_error(nm) { continue; }
                 let nn = &xt.nodes[nm];
                 let name = &src[nn.start..nn.end];
-                if name == b"skip" { continue; }
+                if name == b"skip" && kind(i) == "call" { continue; }
                 // local?
                 let mut scopes = vec![];
                 let mut p = nn.parent;
-                while let Some(q) = p { if kind(q) == "block" || kind(q) == "fn_def" { scopes.push(q); } p = xt.nodes[q].parent; }
+                while let Some(q) = p { if kind(q) == "block" || kind(q) == "fn_def" || kind(q) == "lambda" { scopes.push(q); } p = xt.nodes[q].parent; }
                 scopes.push(0);
                 if scopes.iter().any(|&s| defs.iter().any(|d| d.0 == s && d.1 == name && d.2 < nn.start)) { continue; }
                 out.push(Exp { name: (nn.start, nn.end), range: (n.start.min(nn.start), n.end.max(nn.end)), is_def: false, kind: "call", docs: None });
